@@ -214,7 +214,7 @@ def run(ctx):
                   "deep equality on the node's own two subjects (so diffing and equality cannot disagree); and every "
                   "comparison inside the ir::equals overloads pairs the same accessor of its two arguments (the "
                   "syntactic part of symmetry)")
-    ctx.rules = ["R-HASCHG", "R-EQSYM"]
+    ctx.rules = ["R-HASCHG", "R-HASCHG/ARRAY", "R-EQSYM"]
     P = ctx.program(UNITS + ["src/abg-ir.cc"])
     base = P.fn1("abigail::comparison::corpus_diff::has_changes")  # anchor
     diff_classes = P.subclasses("abigail::comparison::diff")
@@ -263,4 +263,19 @@ def run(ctx):
             detail += " - operands are not this node's own first/second subject accessors"
         ctx.ob("R-HASCHG", ent, deep and own, f.loc(e), detail)
     ctx.floor("R-HASCHG", "artifact diff classes overriding has_changes", n_art, 15)
+    # the recorded deviant sibling re-implements the comparison; as long as it does, it must at least look at everything
+    # equals(array_type_def) distinguishes: the element type (through its diff) and the *dimensions* - which only the name
+    # (element type name + every bound) or the subranges carry; total size and dimension count do not (int[2][6] / int[3][4])
+    arr = [f for f in overr if f.cls and f.cls.endswith("array_diff")]
+    if arr:
+        f = arr[0]
+        reads = {(f.decl(x) or {}).get("n") for x in f.nodes() if x["k"] == "CXXMemberCallExpr"}
+        own = not f.nodes() or True
+        expr, _ = _unwrap_return(f)
+        if expr is None:                                 # still the hand-written comparison
+            dims = reads & {"get_name", "get_qualified_name", "get_pretty_representation", "get_subranges"}
+            ctx.ob("R-HASCHG/ARRAY", "array_diff::has_changes looks at the dimensions of the two arrays", bool(dims), f.loc(),
+                   "through %s()" % "/".join(sorted(dims)) if dims else
+                   "it reads %s: two arrays with the same element type, total size and number of dimensions but different bounds "
+                   "(int[2][6] / int[3][4]) are unequal for the IR and `unchanged` for the diff" % sorted(r for r in reads if r and r.startswith("get_")))
     eqsym(ctx, P)
